@@ -30,7 +30,8 @@ EXTENDS Integers, Sequences, FiniteSets, TLC, Json
 
 CONSTANTS Fuel,        \* bound on the number of recursive expansions
           AllowFault,  \* BOOLEAN: may one mandatory delimiter be skipped
-          Small        \* BOOLEAN: one representative per lexical class (for exhaustive enumeration)
+          Small,       \* BOOLEAN: one representative per lexical class (for exhaustive enumeration)
+          Focus        \* "" : whole programs; a nonterminal name: programs that start with that construct in three contexts
 
 VARIABLES stack, out, off, exps, fuel, fault, lastSemi, lvl, done
 
@@ -60,7 +61,7 @@ WsBlank == IF Small THEN {"", " "} ELSE {"", " ", "\n"}
 \* ---------------------------------------------------------------- grammar
 \* recursive nonterminals consume fuel
 Recursive == {"ArgStmt", "Prog", "Stmt", "MacroStmt", "MacroDef", "DoBlock", "Call", "Builtin", "Value", "ValueRest",
-              "ArgList", "ArgRest", "Expr", "ExprRest", "Operand", "DQBody", "TextExpr", "TextRest", "Branch",
+              "ArgList", "ArgRest", "Expr", "ExprM", "TailExprM", "ExprRest", "Operand", "DQBody", "TextExpr", "TextRest", "Branch",
               "OpenRest", "StrText", "ParamRest", "EvalArgsRest", "ManyRest", "Balanced"}
 
 Seq1(S) == {<<x>> : x \in S}
@@ -146,7 +147,10 @@ Prods(sym, rich) ==
          {<<>>} \cup
          (IF rich THEN {<<X(" "), NT("ValueHead"), NT("ValueRest")>>, <<NT("ValuePiece"), NT("ValueRest")>>} ELSE {})
     [] sym = "ValuePiece" ->
-         {<<X("("), NT("Balanced"), X(")")>>, <<NT("SQuoted")>>, <<NT("DQuoted")>>, <<NT("MVarRef")>>,
+         \* (a quoted literal glued to a preceding one of the same quote would be one literal with a doubled quote:
+         \*  quoted pieces are separated from what precedes them)
+         {<<X("("), NT("Balanced"), X(")")>>, <<X("-"), NT("SQuoted")>>, <<X("-"), NT("DQuoted")>>,
+          <<NT("MVarRef"), NT("SQuoted")>>, <<NT("MVarRef"), NT("DQuoted")>>, <<NT("MVarRef")>>,
           <<NT("StrCall")>>, <<X("-2")>>, <<NT("ArgStmt")>>}
     \* a macro statement inside an argument value (glued to what precedes it)
     [] sym = "ArgStmt" ->
@@ -166,10 +170,10 @@ Prods(sym, rich) ==
     [] sym = "Builtin" ->
          {<<T(k), w, DF("(", "LPAREN", "lparen"), w, NT("Expr"), <<"close", "rparen", "DEFAULT">>>> : k \in {"%eval"}} \cup
          {<<T("%sysevalf"), w, DF("(", "LPAREN", "lparen"), w, NT("Expr"), NT("TailValue"), <<"close", "rparen", "DEFAULT">>>>} \cup
-         {<<T(k), w, DF("(", "LPAREN", "lparen"), w, NT("Value"), DF(",", "COMMA", "comma"), w, NT("Expr"),
+         {<<T(k), w, DF("(", "LPAREN", "lparen"), w, NT("Value"), DF(",", "COMMA", "comma"), w, NT("ExprM"),
             NT("TailValue"), <<"close", "scan", "DEFAULT">>>> : k \in ScanKw} \cup
-         {<<T(k), w, DF("(", "LPAREN", "lparen"), w, NT("Value"), DF(",", "COMMA", "comma"), w, NT("Expr"),
-            NT("TailExpr"), <<"close", "scan", "DEFAULT">>>> : k \in SubstrKw} \cup
+         {<<T(k), w, DF("(", "LPAREN", "lparen"), w, NT("Value"), DF(",", "COMMA", "comma"), w, NT("ExprM"),
+            NT("TailExprM"), <<"close", "scan", "DEFAULT">>>> : k \in SubstrKw} \cup
          {<<T(k), w, DF("(", "LPAREN", "lparen"), w, NT("OneArgValue"), <<"close", "rparen", "DEFAULT">>>> : k \in OneArgKw} \cup
          {<<T(k), w, DF("(", "LPAREN", "lparen"), w, NT("Value"), NT("ManyRest"), <<"close", "rparen", "DEFAULT">>>> : k \in ManyArgKw} \cup
          {<<T(k), w, DF("(", "LPAREN", "lparen"), w, NT("ArgList"), <<"close", "rparen", "DEFAULT">>>> : k \in NamedArgKw} \cup
@@ -178,13 +182,22 @@ Prods(sym, rich) ==
          {<<T("%sysmexecdepth")>>}
     [] sym = "TailValue" -> {<<>>, <<D(",", "COMMA"), w, NT("Value")>>}
     [] sym = "TailExpr"  -> {<<>>, <<D(",", "COMMA"), w, NT("Expr")>>}
+    [] sym = "TailExprM" -> {<<>>, <<D(",", "COMMA"), w, NT("ExprM")>>}
+    \* an expression argument in which parentheses mask commas (%scan/%substr positions, %sysfunc arguments):
+    \* a comma nested in balanced parentheses is text, the parentheses are operator tokens
+    [] sym = "ExprM" ->
+         {<<NT("Expr")>>} \cup
+         (IF rich THEN {<<D("(", "LPAREN"), X("1,2"), D(")", "RPAREN"), NT("ExprRest")>>,
+                        <<D("(", "LPAREN"), NT("MVarRef"), X(",2"), D(")", "RPAREN"), NT("ExprRest")>>,
+                        <<D("(", "LPAREN"), X("a,b;c"), D(")", "RPAREN")>>}
+          ELSE {})
     [] sym = "OneArgValue" ->
          {<<NT("Value")>>, <<NT("Value"), X(","), NT("Value")>>, <<X("a,b=c")>>}
     [] sym = "ManyRest" ->
          {<<>>} \cup (IF rich THEN {<<D(",", "COMMA"), w, NT("Value"), NT("ManyRest")>>} ELSE {})
-    [] sym = "EvalArgs" -> {<<>>, <<NT("Expr"), NT("EvalArgsRest")>>}
+    [] sym = "EvalArgs" -> {<<>>, <<NT("ExprM"), NT("EvalArgsRest")>>}
     [] sym = "EvalArgsRest" ->
-         {<<>>} \cup (IF rich THEN {<<D(",", "COMMA"), w, NT("Expr"), NT("EvalArgsRest")>>} ELSE {})
+         {<<>>} \cup (IF rich THEN {<<D(",", "COMMA"), w, NT("ExprM"), NT("EvalArgsRest")>>} ELSE {})
     [] sym = "Expr" ->
          {<<NT("Operand"), NT("ExprRest")>>}
     [] sym = "ExprRest" ->
@@ -260,8 +273,16 @@ Prods(sym, rich) ==
 \* ---------------------------------------------------------------- machine
 NoFault == [kind |-> "", o |-> 0 - 1, lvl |-> 0, closeAt |-> 0 - 1, trunc |-> FALSE]
 
+\* initial stacks: a whole program, or (to concentrate random derivations on one construct) the construct
+\* Focus as a %let value, as %put text and in open code, followed by a program
+Starts ==
+  IF Focus = "" THEN {<<w, NT("Stmt"), NT("Prog")>>}
+  ELSE IF Focus \in {"MacroDef", "DoBlock", "MacroStmt"} THEN {<<NT(Focus), NT("Prog")>>}
+  ELSE {<<T("%let"), T(" "), T("a"), D("=", "ASSIGN"), NT(Focus), D(";", "SEMI"), NT("Prog")>>,
+        <<T("%put"), T(" "), NT(Focus), D(";", "SEMI"), NT("Prog")>>,
+        <<T("x"), T("="), NT(Focus), T(";"), NT("Prog")>>}
 Init ==
-  /\ stack = <<w, NT("Stmt"), NT("Prog")>>
+  /\ stack \in Starts
   /\ out = <<>> /\ off = 0 /\ exps = <<>>
   /\ fuel = Fuel /\ fault = NoFault /\ lastSemi = TRUE /\ lvl = 0 /\ done = FALSE
 
